@@ -55,6 +55,9 @@ func buildRules(k int) (*filterRuleList, []refRule) {
 	for i := 0; i < k; i++ {
 		inc := nd_bool()
 		pat := string([]byte{symLetter()})
+		if vparam("long") == 1 && nd_bool() {
+			pat += string([]byte{symLetter()})
+		}
 		line := "- " + pat
 		if inc {
 			line = "+ " + pat
@@ -82,6 +85,9 @@ func HFilterMatch() {
 		return
 	}
 	name := string([]byte{symLetter()})
+	if vparam("long") == 1 && nd_bool() {
+		name += string([]byte{symLetter()}) // two-letter names: a rule may equal a prefix or a suffix
+	}
 	if nd_bool() {
 		name = string([]byte{symLetter()}) + "/" + name
 	}
